@@ -34,6 +34,7 @@ func c04Recipient(cls string, i int) []byte {
 }
 
 func runC04(rc *RunCtx) {
+	defer ProbeHistory(rc, rc.Pick(200, 800), rc.Shard%2 == 0)
 	// focused: amount class x recipient class x denom spelling, under both back-ends
 	for _, double := range []bool{true, false} {
 		if rc.NShards > 1 && (rc.Shard%2 == 0) != double {
